@@ -183,11 +183,13 @@ pub(crate) fn value_of_correct_type(
         // coercion for the list’s item type on the provided value (note
         // this may apply recursively for nested lists).
         ast::Value::List(li) => {
-            let accepts_list = ty.is_list()
+            if !ty.is_list() {
                 // A named type can still accept a list if it is a custom scalar.
-                || matches!(type_definition, schema::ExtendedType::Scalar(scalar) if !scalar.is_built_in());
-            if !accepts_list {
-                unsupported_type(diagnostics, arg_value, ty)
+                // Any value is valid for a custom scalar, so the items are not checked.
+                let is_custom_scalar = matches!(type_definition, schema::ExtendedType::Scalar(scalar) if !scalar.is_built_in());
+                if !is_custom_scalar {
+                    unsupported_type(diagnostics, arg_value, ty)
+                }
             } else {
                 let item_type = ty.same_location(ty.item_type().clone());
                 if type_definition.is_input_type() {
